@@ -27,6 +27,7 @@ pub struct T {
     /// progress counter value when this runtime thread last went idle
     pub idle_mark: u64,
     pub last_loc: usize,
+    pub last_val: u64,
     pub same_loc: u32,
     pub yielded: bool,
     /// the thread said (or showed) that it is polling: time may pass
@@ -355,20 +356,12 @@ impl Hooks for Ctl {
             drop(g);
             self.finish_hang();
         }
-        // anti-spin: the same thread hitting the same site repeatedly is treated as yielding
-        let l = loc as *const _ as usize;
-        if g.threads[me].last_loc == l {
-            g.threads[me].same_loc += 1;
-            if g.threads[me].same_loc >= 3 {
-                g.threads[me].yielded = true;
-                g.threads[me].spinning = true;
-                g.threads[me].same_loc = 0;
-            }
-        } else {
-            g.threads[me].last_loc = l;
+        // anti-spin: the same thread observing the same value at the same site three times in a row
+        // (counted in `post`) is treated as polling
+        if g.threads[me].same_loc >= 3 {
+            g.threads[me].yielded = true;
+            g.threads[me].spinning = true;
             g.threads[me].same_loc = 0;
-            // a different shared access: the thread makes progress
-            g.threads[me].spinning = false;
         }
         // preemption: the OS takes the CPU away from this thread for some (virtual) time
         if g.stall_n > 0 && g.stalls < g.max_stalls && g.next_rand() % g.stall_n == 0 {
@@ -397,6 +390,16 @@ impl Hooks for Ctl {
         let co = self.cur_co();
         let mut g = self.m.lock().unwrap_or_else(|e| e.into_inner());
         g.threads[me].yielded = false;
+        let l = loc as *const _ as usize;
+        if g.threads[me].last_loc == l && g.threads[me].last_val == val {
+            g.threads[me].same_loc += 1;
+        } else {
+            g.threads[me].last_loc = l;
+            g.threads[me].last_val = val;
+            g.threads[me].same_loc = 0;
+            // a different shared access or a different value: the thread makes progress
+            g.threads[me].spinning = false;
+        }
         if !g.record {
             return;
         }
@@ -492,6 +495,7 @@ impl Hooks for Ctl {
                 rt,
                 idle_mark: u64::MAX,
                 last_loc: 0,
+                last_val: 0,
                 same_loc: 0,
                 yielded: false,
                 spinning: false,
@@ -723,6 +727,7 @@ pub fn run(cfg: Config, body: impl FnOnce(&Ctx)) -> ! {
             rt: false,
             idle_mark: u64::MAX,
             last_loc: 0,
+                last_val: 0,
             same_loc: 0,
             yielded: false,
                 spinning: false,
